@@ -15,6 +15,7 @@ EXHAUSTIVE_QUICK = [
     "2 1 / / P:1:i:0:0 ; W:0 D:1",            # target cancels before dispatching
     "2 1 / W:0 / P:1:n:0:0 ; D:0",            # self-cancel inside the callback
     "2 1 / X:0 / P:1:n:0:0 ; D:0",            # two-arg form inside the callback, no competitor
+    "2 1 / / W:0 ; P:0:n:-:0 P:0:n:0:0",      # the target itself cancel-and-waits while a post into its NON-EMPTY queue is in flight
 ]
 EXHAUSTIVE_THOROUGH = [
     "2 1 / / P:1:n:0:0 P:1:i:0:0 ; D:0",      # 2 callbacks, normal + interrupt kinds (17637)
@@ -31,6 +32,26 @@ EXHAUSTIVE_THOROUGH = [
 EXHAUSTIVE_PREFIX = [("2 1 / X:0 / P:1:n:0:0 D:0 ; P:0:n:0:0 D:0", 60000)]
 
 HAND = [
+    # mutual two-arg cancel on a shared id (threads 0 and 1, both inside a callback of the id) while a THIRD thread posts to
+    # thread 1 under the id exactly between thread 0's dl_fetch_add (generation bump, 0x8 still set) and its dl_fetch_and; thread 1
+    # then starts its own cancel (sees 0x8, handshake path). The post completed before thread 1's cancel began: it must not run
+    # on thread 1's second dispatch.
+    ("3 1 / X:0 ; / P:1:n:0:0 D:0 ; P:0:n:0:0 D:0 D:0 ; P:1:n:0:1",
+     ["0000" + "1111" + "1111" + "0000" + "000" + "2222" + "11111" + "012" * 30,
+      "0000" + "1111" + "1111" + "0000" + "000" + "2222" + "111" + "0" + "012" * 30,
+      "0000" + "1111" + "1111" + "0000" + "00" + "2222" + "0" + "11111" + "012" * 30]),
+    ("3 1 / X:0 ; / P:1:i:0:0 D:0 ; P:0:i:0:0 D:0 D:0 ; P:1:i:0:1",
+     ["0000" + "1111" + "1111" + "0000" + "000" + "2222" + "11111" + "012" * 30]),
+    # notify/wait discipline: the canceller (= the target thread, nobody dispatches) blocks in id->wait() while a post under the
+    # id is between fetch_add and fetch_sub; the post goes into a NON-EMPTY queue (no poll interrupt); only the notify_all after
+    # the fetch_sub can wake the canceller
+    ("2 1 / / W:0 ; P:0:n:-:0 P:0:n:0:0", ["1111" + "000" + "111" + "0" * 6 + "01" * 12, "11111" + "00" + "1" + "0" + "1" + "01" * 14]),
+    ("2 1 / / W:0 ; P:0:i:-:0 P:0:i:0:0", ["1111" + "000" + "111" + "0" * 6 + "01" * 12]),
+    ("2 1 / / W:0 ; P:0:n:0:0 P:0:n:0:0", ["1111" + "1" + "000" + "1111" + "0" * 6 + "01" * 12, "11111" + "1" + "00" + "11" + "0" + "01" * 14]),
+    ("3 1 / / W:0 ; P:0:n:-:0 P:0:n:0:0 ; P:0:n:0:0", ["1111" + "22" + "000" + "2" + "00" + "111" + "00" + "012" * 12]),
+    # ... and blocked while a dispatch on another thread is between pc_fetch_add and pc_fetch_sub / pc_skip_sub
+    ("2 1 / / P:1:n:0:0 W:0 ; D:0", ["0000" + "111" + "000" + "1111" + "0000" + "01" * 12]),
+    ("3 1 / / P:1:n:0:0 C:0 P:2:n:0:0 W:0 ; D:0 ; D:0", ["0" * 9 + "111" + "2222" + "000" + "1111" + "00" + "2222" + "012" * 14]),
     # one poster, one kind (interrupt), with and without id: must run in post order
     ("2 1 / / P:1:i:0:0 P:1:i:-:0 P:1:i:0:0 ; D:0 D:0", ["0" * 11 + "1" * 30, "0" * 4 + "1" * 2 + "0" * 7 + "1" * 30]),
     ("2 1 / / P:1:n:0:0 P:1:i:-:0 P:1:i:0:0 P:1:n:-:0 ; D:0 D:0", ["0" * 14 + "1" * 40]),
